@@ -39,7 +39,9 @@ func (d *decoder) Read(b []byte) (int, error) {
 	if d.err != nil {
 		return 0, d.err
 	}
-	if d.remain == 0 {
+	if d.remain <= 0 {
+		// A negative limit comes from a malformed size field; treat the
+		// input as exhausted instead of slicing with a negative bound.
 		return 0, io.EOF
 	}
 	if len(b) > d.remain {
@@ -109,9 +111,14 @@ func (d *decoder) decodeCompactBytes(v value) {
 func (d *decoder) decodeArray(v value, elemType reflect.Type, decodeElem decodeFunc) {
 	if n := d.readInt32(); n < 0 {
 		v.setArray(array{})
+	} else if int(n) > d.remain {
+		// Every element takes at least one byte, a count larger than what
+		// remains of the frame is malformed: fail before allocating.
+		d.setError(io.ErrUnexpectedEOF)
+		v.setArray(array{})
 	} else {
 		a := makeArray(elemType, int(n))
-		for i := 0; i < int(n) && d.remain > 0; i++ {
+		for i := 0; i < int(n) && d.remain > 0 && d.err == nil; i++ {
 			decodeElem(d, a.index(i))
 		}
 		v.setArray(a)
@@ -121,9 +128,12 @@ func (d *decoder) decodeArray(v value, elemType reflect.Type, decodeElem decodeF
 func (d *decoder) decodeCompactArray(v value, elemType reflect.Type, decodeElem decodeFunc) {
 	if n := d.readUnsignedVarInt(); n < 1 {
 		v.setArray(array{})
+	} else if d.remain < 0 || n-1 > uint64(d.remain) {
+		d.setError(io.ErrUnexpectedEOF)
+		v.setArray(array{})
 	} else {
 		a := makeArray(elemType, int(n-1))
-		for i := 0; i < int(n-1) && d.remain > 0; i++ {
+		for i := 0; i < int(n-1) && d.remain > 0 && d.err == nil; i++ {
 			decodeElem(d, a.index(i))
 		}
 		v.setArray(a)
@@ -149,6 +159,12 @@ func (d *decoder) discard(n int) {
 }
 
 func (d *decoder) read(n int) []byte {
+	if n < 0 || n > d.remain {
+		// The length comes from the wire: a negative value (conversion of a
+		// huge varint) or one larger than the rest of the frame is malformed.
+		d.setError(io.ErrUnexpectedEOF)
+		return nil
+	}
 	b := make([]byte, n)
 	n, err := io.ReadFull(d, b)
 	b = b[:n]
@@ -429,7 +445,7 @@ func structDecodeFuncOf(typ reflect.Type, version int16, flexible bool) decodeFu
 			// for details of tag buffers in "flexible" messages.
 			n := int(d.readUnsignedVarInt())
 
-			for i := 0; i < n; i++ {
+			for i := 0; i < n && d.err == nil; i++ {
 				tagID := int(d.readUnsignedVarInt())
 				size := int(d.readUnsignedVarInt())
 
